@@ -849,13 +849,16 @@ pub fn run_history(acc: &mut Acc, r: &mut Rng, steps: u64, variant: u64) {
         let asset = r.pick(&wd.rewards).clone();
         let extra = if asset.id() == wd.fee_asset.id() { wd.fee_amount } else { 0 };
         let next_epochs = |wd: &mut IncWorld, k: u64| {
-            advance(&mut wd.app, 10, k * DAY_NS);
-            let owner = wd.core.owner.clone();
-            catch_up_epochs(&mut wd.app, &wd.core, &owner);
+            // one epoch at a time, each with its global-weight snapshot (epochs without one pay nothing)
+            for _ in 0..k {
+                advance(&mut wd.app, 10, DAY_NS);
+                let owner = wd.core.owner.clone();
+                catch_up_epochs(&mut wd.app, &wd.core, &owner);
+                let inc = wd.incentive.clone();
+                let _ = exec(&mut wd.app, &owner, &inc, &im::ExecuteMsg::TakeGlobalWeightSnapshot {}, &[]);
+            }
             let e = wd.epoch();
-            wd.log(format!("epoch -> {e} (+ snapshot)"));
-            let inc = wd.incentive.clone();
-            let _ = exec(&mut wd.app, &owner, &inc, &im::ExecuteMsg::TakeGlobalWeightSnapshot {}, &[]);
+            wd.log(format!("epoch -> {e} (a snapshot in every epoch)"));
         };
         let e = wd.epoch();
         op_open_flow(acc, &mut wd, 0, &asset, 50_000 + extra, Some(e), Some(e + 40), 0);
@@ -868,7 +871,10 @@ pub fn run_history(acc: &mut Acc, r: &mut Rng, steps: u64, variant: u64) {
         let e = wd.epoch();
         op_open_flow(acc, &mut wd, 2, &asset, 10_000 + extra, None, Some(e + r.range(3, 12)), 0);
         next_epochs(&mut wd, 1);
-        op_claim(acc, &mut wd, 3);
+        let c3 = op_claim(acc, &mut wd, 3);
+        if std::env::var("VERIF_DEBUG_PRELUDE").is_ok() {
+            eprintln!("U second claim ok: {c3}; emitted: {:?}", wd.flows().iter().map(|f| (f.flow_id, f.emitted_tokens.clone())).collect::<Vec<_>>());
+        }
         next_epochs(&mut wd, r.range(8, 20));
         let c1 = op_claim(acc, &mut wd, 1);
         let c2 = op_claim(acc, &mut wd, 2);
